@@ -6,6 +6,7 @@ package c03
 
 import (
 	"fmt"
+	"math/big"
 
 	"github.com/lianxiangcloud/linkchain/consensus"
 	"github.com/lianxiangcloud/linkchain/libs/common"
@@ -37,6 +38,9 @@ type commitInput struct {
 	Slots    []*types.Vote
 	Labels   []string
 	Sp       split
+	// CommitBID is the block id the commit declares for itself (Commit.BlockID): the block the votes were
+	// really cast for, which differs from B when the verifier is asked about another block.
+	CommitBID types.BlockID
 }
 
 type commitGen struct {
@@ -137,7 +141,8 @@ func (g *commitGen) slot(i int, class string) (*types.Vote, string) {
 		if g.vals[i].Secp {
 			v.Signature = crypto.SignatureEd25519FromBytes(r.Bytes(64))
 		} else {
-			v.Signature = crypto.SignatureSecp256k1FromBytes(v.Signature.(crypto.SignatureEd25519)[:])
+			es := v.Signature.(crypto.SignatureEd25519)
+			v.Signature = crypto.SignatureSecp256k1FromBytes(es[:])
 		}
 		return v, class
 	case "sig-of-other-validator":
@@ -195,7 +200,7 @@ func (g *commitGen) goodClass() string {
 func (g *commitGen) derive(k int) commitInput {
 	r := g.r
 	n := len(g.vals)
-	in := commitInput{Chain: g.chain, B: g.B, H: g.H, Slots: make([]*types.Vote, n), Labels: make([]string, n)}
+	in := commitInput{Chain: g.chain, B: g.B, H: g.H, Slots: make([]*types.Vote, n), Labels: make([]string, n), CommitBID: g.B}
 	if k == 0 {
 		// the unmutated commit: every validator signed B
 		in.Scenario = "full"
@@ -300,23 +305,36 @@ func (g *commitGen) derive(k int) commitInput {
 	return in
 }
 
-// failureLabel names the class of a wrongly accepted commit from the slots the reference did not count.
-func failureLabel(in commitInput, t tally) string {
+// failureLabel names the class of a wrongly accepted commit. stillAccepts re-runs the acceptor on the
+// commit with every slot the reference does not count in its best round removed: if that is still
+// accepted the threshold arithmetic itself is off ("threshold"); otherwise the class is the requirement
+// the removed slots fail (type | height | blockid | signature | round | noslot | mixed). Generator labels are in the witness.
+func failureLabel(in commitInput, t tally, stillAccepts func(stripped []*types.Vote) bool) string {
+	stripped := make([]*types.Vote, len(in.Slots))
 	label := ""
 	for i, s := range t.Slots {
-		if in.Slots[i] == nil || s.Counted {
+		v := in.Slots[i]
+		if v == nil {
 			continue
 		}
+		reason := s.Reason
+		if s.Counted {
+			if v.Round == t.Round {
+				stripped[i] = v
+				continue
+			}
+			reason = "round"
+		}
 		if label == "" {
-			label = in.Labels[i]
-		} else if label != in.Labels[i] {
-			return "mixed"
+			label = reason
+		} else if label != reason {
+			label = "mixed"
 		}
 	}
-	if in.Scenario == "two-rounds" {
-		return "two-rounds"
+	if in.Scenario == "size" {
+		return "size"
 	}
-	if label == "" {
+	if stillAccepts(stripped) || label == "" {
 		return "threshold"
 	}
 	return label
@@ -340,9 +358,9 @@ func witnessOf(in commitInput, vals []*val, t tally) map[string]interface{} {
 		slots = append(slots, line)
 	}
 	return map[string]interface{}{
-		"scenario": in.Scenario, "chain_id": in.Chain, "height": in.H, "block_id": fmt.Sprintf("%x/%d/%x", in.B.Hash, in.B.PartsHeader.Total, in.B.PartsHeader.Hash),
+		"scenario": in.Scenario, "commit_block_id": fmt.Sprintf("%x/%d/%x", in.CommitBID.Hash, in.CommitBID.PartsHeader.Total, in.CommitBID.PartsHeader.Hash), "chain_id": in.Chain, "height": in.H, "block_id": fmt.Sprintf("%x/%d/%x", in.B.Hash, in.B.PartsHeader.Total, in.B.PartsHeader.Hash),
 		"total": t.Total.String(), "ref_tallied": t.Tallied.String(), "ref_round": t.Round, "ref_accepts": t.Accept, "well_formed": t.WellFormed,
-		"threshold": thresholdClass(t.Tallied, t.Total), "delta_3s_minus_2t": in.Sp.Delta, "distribution": in.Sp.Dist, "slots": slots,
+		"threshold": thresholdClass(t.Tallied, t.Total), "three_tallied_minus_two_total": new(big.Int).Sub(new(big.Int).Mul(t.Tallied, big.NewInt(3)), new(big.Int).Mul(t.Total, big.NewInt(2))).String(), "distribution": in.Sp.Dist, "slots": slots,
 	}
 }
 
@@ -410,6 +428,7 @@ func runCommits(c *core.Ctx) {
 		derived = 5
 	}
 	fpInteresting := false
+	signBytesReported := false
 	var sample map[string]interface{}
 	for k := 0; k <= derived; k++ {
 		in := g.derive(k)
@@ -428,12 +447,14 @@ func runCommits(c *core.Ctx) {
 			}
 			c.Count("signbytes_crosschecks", 1)
 			if got, want := string(v.SignBytes(in.Chain)), string(refSignBytes(in.Chain, v)); got != want {
-				c.Violation("signbytes/differs-from-canonical-format", fmt.Sprintf("Vote.SignBytes=%s, canonical format gives %s", got, want), map[string]interface{}{"vote": shortVote(v), "chain_id": in.Chain})
-				return
+				if !signBytesReported {
+					c.Violation("signbytes/differs-from-canonical-format", fmt.Sprintf("Vote.SignBytes=%s, canonical format gives %s", got, want), map[string]interface{}{"vote": shortVote(v), "chain_id": in.Chain})
+				}
+				signBytesReported = true // keep going: the behavioural oracles below show what the difference lets through
 			}
 		}
 
-		commit := &types.Commit{BlockID: in.B, Precommits: in.Slots}
+		commit := &types.Commit{BlockID: in.CommitBID, Precommits: in.Slots}
 		var verr error
 		func() {
 			defer func() {
@@ -473,7 +494,10 @@ func runCommits(c *core.Ctx) {
 			c.Count("verifycommit_rejects", 1)
 		}
 		if verr == nil && !t.Accept {
-			c.Violation("verifycommit/accepts-insufficient/"+failureLabel(in, t),
+			lab := failureLabel(in, t, func(st []*types.Vote) bool {
+				return set.VerifyCommit(in.Chain, in.B, in.H, &types.Commit{BlockID: in.B, Precommits: st}) == nil
+			})
+			c.Violation("verifycommit/accepts-insufficient/"+lab,
 				fmt.Sprintf("VerifyCommit accepted; reference tally %s of %s (3·tallied > 2·total is false), scenario %s", t.Tallied, t.Total, in.Scenario), witnessOf(in, vals, t))
 			return
 		}
@@ -485,7 +509,7 @@ func runCommits(c *core.Ctx) {
 
 		// call site: block validation of LastCommit
 		if n <= 12 || k%3 == 0 {
-			berr, skipped := validateBlockWith(in, set, &types.Commit{BlockID: in.B, Precommits: in.Slots})
+			berr, skipped := validateBlockWith(in, set, &types.Commit{BlockID: in.CommitBID, Precommits: in.Slots})
 			if skipped {
 				c.Count("validateblock_unbuildable", 1)
 			} else {
@@ -496,7 +520,11 @@ func runCommits(c *core.Ctx) {
 					c.Count("validateblock_rejects", 1)
 				}
 				if berr == nil && !t.Accept {
-					c.Violation("validateblock/accepts-insufficient/"+failureLabel(in, t),
+					lab := failureLabel(in, t, func(st []*types.Vote) bool {
+						e, sk := validateBlockWith(in, set, &types.Commit{BlockID: in.CommitBID, Precommits: st})
+						return e == nil && !sk
+					})
+					c.Violation("validateblock/accepts-insufficient/"+lab,
 						fmt.Sprintf("ValidateBlock accepted a block whose LastCommit has reference tally %s of %s", t.Tallied, t.Total), witnessOf(in, vals, t))
 					return
 				}
@@ -522,6 +550,7 @@ func runCommits(c *core.Ctx) {
 		if c.Index%500 == 0 && k == 2 {
 			sample = witnessOf(in, vals, t)
 			sample["verifycommit_error"] = fmt.Sprint(verr)
+			sample["part"] = "commit"
 		}
 	}
 	c.Count("signatures_made", g.sg.nsig)
